@@ -28,6 +28,9 @@ func init() {
 }
 
 func hookRound3(c *Ctx, prop string) {
+	for _, f := range round3Hooks[prop] {
+		f(c)
+	}
 	switch prop {
 	case "C24":
 		runSharedLockTable(c)
@@ -433,3 +436,6 @@ func runDeltaFlagThenFull(c *Ctx) {
 	}
 	c.Anchor("C14.R7", "delivery-path stores of flagDeltaAllowed", n >= 2)
 }
+
+// round3Hooks: further per-property rule functions registered from other files.
+var round3Hooks = map[string][]func(*Ctx){}
